@@ -63,7 +63,7 @@ def run(c):
     ph["model_checking"] = round(time.time() - t0, 1)
     other_sid = A.real_other_session_id()
     # ---- RP: spec -> code
-    jobs = A.replay_jobs(rnd, wits, msgs, 25 if c.quick else 3500, weight, must, "rp", with_offer=False)
+    jobs = A.replay_jobs(rnd, wits, msgs, 25 if c.quick else 2500, weight, must, "rp", with_offer=False)
     # walks to the cap: each witness as single messages, then the states next to the cap extended by every kind of
     # message, once step by step and once with everything pipelined into the server's input before it starts
     near = [w for w in capwits if w["alive"] and w["failCount"] >= 8]
@@ -129,7 +129,7 @@ def run(c):
     ph["replay"] = round(time.time() - t0, 1)
     # ---- TV: code -> spec
     jobs = [A.random_job(rnd, rnd.randint(6, 25), {"ok": 0.03, "switch": 0.03, "service": 0.02, "gss": 0.3}, "tv")
-            for _ in range(35 if c.quick else 2000)]
+            for _ in range(35 if c.quick else 1500)]
     traces += A.execute(c, jobs, other_sid, "random")
     ph["random"] = round(time.time() - t0, 1)
     A.validate(c, traces, A.C16_CLAUSES)
